@@ -232,9 +232,11 @@ def key_coq(k) -> str:
     return f"(KSlice {optz(k[1])} {optz(k[2])} {optz(k[3])})"
 
 
-def get_layouts(specs: List[dict], compiled: Sequence[int] = ()) -> Layouts:
-    r = run_worker(dict(classes=specs, compiled=list(compiled), layout=True))
-    return Layouts(specs, r["layout"])
+def get_layouts(specs: List[dict], compiled: Sequence[int] = (), imports: Sequence[str] = ()) -> Layouts:
+    r = run_worker(dict(classes=specs, compiled=list(compiled), imports=list(imports), layout=True))
+    L = Layouts(r["specs"] if imports else specs, r["layout"])
+    L.compile_error = r.get("compile_error")
+    return L
 
 
 HEADER = """From Coq Require Import ZArith List Bool.
